@@ -217,7 +217,7 @@ class SmtpRelayClient(RelayPoolClient):
             if not _refused(rcptto):
                 break
         else:
-            if len(set(rcptto.code[0] for rcptto in rcpttos)) > 1:
+            if any(rcptto != rcpttos[0] for rcptto in rcpttos[1:]):
                 raise _AllRecipientsRejected(rcpttos)
             raise SmtpRelayError.factory(rcpttos[0])
         if data.code != '354':
